@@ -106,7 +106,19 @@ func c12Entries() []c12Entry {
 		}
 	}
 	out("text.noiter", gtree.WithNoUseIterOfSimpleOutput())
-	out("branch", BranchOptions(3)...)
+	// custom branch strings: the tuple rotates with the case (c12BranchSel), so that every length
+	// relation between the four strings meets every kind of input
+	for _, massive := range []bool{false, true} {
+		massive := massive
+		es = append(es, c12Entry{name: "OutputFromMarkdown[branch]", massive: massive, run: func(doc string, ctx context.Context, _ string) ([]byte, int, Outcome) {
+			opts := BranchOptions(c12BranchSel % len(BranchTuples))
+			if massive {
+				opts = append(opts, gtree.WithMassive(ctx))
+			}
+			o := OutputMD(doc, opts...)
+			return o.Out, 0, o
+		}})
+	}
 	out("json", gtree.WithEncodeJSON())
 	out("yaml", gtree.WithEncodeYAML())
 	out("toml", gtree.WithEncodeTOML())
@@ -283,7 +295,10 @@ func runC12(c *Ctx) bool {
 	return true
 }
 
+var c12BranchSel int
+
 func evalC12(c *Ctx, cs *Case, lm *mon.LeakMonitor) {
+	c12BranchSel = cs.Idx
 	doc := string(cs.Doc)
 	baseTags := c12Tags(doc)
 	blank := gen.BlankOnly(doc)
